@@ -2,7 +2,6 @@ from vlib import Check
 
 PID = "C06"
 GROUP_KEY = "server/group/http.go:HTTPGroup.Register-route-without-registration-id"
-WINDOW_KEY = "pkg/util/vhost/http.go:route-looked-up-for-pool-key-and-again-for-dial"
 
 MANIFEST = dict(
     text="Machine-checked theorems (Coq 8.16.1) over an executable model of pkg/util/vhost/router.go (per-domain, per-user slices "
@@ -15,10 +14,10 @@ MANIFEST = dict(
          "drivers on the real Routers, HTTPReverseProxy, HTTPSMuxer, HTTPConnectTCPMuxer and ServeHTTP with labelled backends.",
     note="Trusted: Coq kernel+VM; harness transcription. Observed, not proved: net/http request parsing, crypto/tls ClientHello parsing, "
          "http.Transport's pool (its reuse decisions enter the model as an oracle), h2c framing, non-ASCII host names (model lower-cases "
-         "ASCII only). Two clauses are REFUTED on the faithful model and replayed on the code (design/C06.md section 7): routes registered through "
-         "server/group/http.go get no registration id (a re-joined member is served by the former member's backend), and a request routed while no "
-         "route exists but dialled after one was registered pools a connection under the bare-host key (later unrouted requests reach that backend). "
-         "The _partial theorems exclude exactly these operations (hq_plain_op).",
+         "ASCII only). One clause is REFUTED on the faithful model and replayed on the code (recorded finding, design/C06.md section 7): routes "
+         "registered through server/group/http.go get no registration id, so a re-joined member is served by the former member's backend; the "
+         "_partial theorems exclude exactly the group operations (hq_plain_op). F-C06d (route looked up for the pool key and again for the dial) "
+         "was repaired in 4027c37; overtaken requests (HBeginRaced) are covered by full-strength theorems and a gated replay.",
     technique="Coq proof (invariant + refinement to a minimal spec, all histories) + differential correspondence via vm_compute + spec-only monitor on implementation traces",
     design="4/C06")
 
@@ -77,34 +76,16 @@ def recipe(c: Check):
         nv = c.cov.get("coq_counters", {}).get("group", {}).get("NGROUPVIOL", 0)
         c.cov["group_route_finding_reproduced"] = nv
         if nv > 0:
-            if any(k["key"] == GROUP_KEY for k in c.known_findings() if k["property"] == PID):
-                c.failures.append(dict(key=GROUP_KEY, driver="group", case=st.get("witness_case"),
-                                       what="a route re-registered through a load-balancing group reaches the former member's backend over a reused connection"))
-            else:
-                c.notes.append("FINDING (reported to the lead, not yet in KNOWN_FINDINGS.txt): %s reproduced on %d group histories; witness: %s"
-                               % (GROUP_KEY, nv, st.get("witness_case")))
-                c.say("FINDING-CANDIDATE property=C06 %s reproduced on %d histories (proposed-fixes/C06_group_route_pool_key.diff)" % (GROUP_KEY, nv))
-        else:
-            c.notes.append("the group-route finding (%s) did not reproduce on this run" % GROUP_KEY)
-    # a request routed while no route exists and dialled after one was registered (gate in front of
-    # DialContext): theorem C06_unrouted_request_reaches_former_owner_refuted, replayed here
+            # recorded in KNOWN_FINDINGS.txt under exactly this key: vlib prints KNOWN-FINDING
+            c.failures.append(dict(key=GROUP_KEY, driver="group", case=st.get("witness_case"),
+                                   what="a route re-registered through a load-balancing group reaches the former member's backend over a reused connection"))
+    # requests overtaken by a Register between routing and dial, replayed with a gate in front of
+    # DialContext (F-C06d, repaired by 4027c37: the histories must agree with the model and the spec)
     st = c.run_driver("window", q(c.tier, 1, 20000), shards=1, timeout=300)
     if st:
-        nv = c.cov.get("coq_counters", {}).get("window", {}).get("NWINDOWVIOL", 0)
-        c.cov["window_finding_reproduced"] = nv
+        need(c, "window", c.cov.get("coq_counters", {}).get("window", {}), ["NRACED"])
         c.cov["window_gated_replay"] = st.get("gated_replay")
         c.cov["window_cross_wire_replay"] = st.get("cross_wire_replay")
-        if nv > 0:
-            if any(k["key"] == WINDOW_KEY for k in c.known_findings() if k["property"] == PID):
-                c.failures.append(dict(key=WINDOW_KEY, driver="window", case=st.get("witness_case"),
-                                       what="a request overtaken by a registration between routing and dial pools a connection to another route's backend under its own key: "
-                                            "later requests reach a backend whose route does not match (or was unregistered)"))
-            else:
-                c.notes.append("FINDING (reported to the lead, not yet in KNOWN_FINDINGS.txt): %s reproduced with the DialContext gate on %d witness histories; %s; %s"
-                               % (WINDOW_KEY, nv, st.get("cross_wire_replay"), st.get("gated_replay")))
-                c.say("FINDING-CANDIDATE property=C06 %s reproduced with the DialContext gate, %d witnesses (proposed-fixes/C06_dial_by_routed_config.diff)" % (WINDOW_KEY, nv))
-        else:
-            c.notes.append("the routing/dial window finding (%s) did not reproduce on this run" % WINDOW_KEY)
     return c.finish(
         rule="router driver: random histories (8-30 ops) of Add/Del/Get over an adversarial alphabet (shared suffixes, nested wildcards, "
              "'*', mixed case, locations ''//a//ab//a/b, users) on real vhost.Routers + HTTPReverseProxy.Register/UnRegister/GetRouteConfig, "
